@@ -10,11 +10,13 @@ SITE = "nanite.fit.IndentationFitter._fit"
 
 
 def fit_k(cols, mk, k, range_type, range_x, segment, weight_cp, cp0,
-          edelta=False, ns=8, E0=None):
+          edelta=False, ns=8, E0=None, fix_cp=False):
     from nanite import model
     idnt = curves.make_indentation(cols)
     p = model.models_available[mk].get_parameter_defaults()
     p["contact_point"].set(value=cp0)
+    if fix_cp:
+        p["contact_point"].set(vary=False)
     # corresponding starting point of the equivalent problem
     p["E"].set(value=float(E0 if E0 is not None else p["E"].value)
                * k ** (-fits.POWER[mk]))
@@ -48,7 +50,8 @@ def one_case(run, cfg):
             args = (cols, mk)
             kws = dict(range_type="absolute" if rtype == "plateau" else rtype,
                        range_x=rx, segment=segment, weight_cp=weight, cp0=cp0,
-                       edelta=(rtype == "plateau"), E0=E0)
+                       edelta=(rtype == "plateau"), E0=E0,
+                       fix_cp=bool(cfg.get("fix_cp")))
             ik, ck, pk = fit_k(*args, k=k, **kws)
             i1, c1, p1 = fit_k(*args, k=1.0, **kws)
         except BaseException as e:
@@ -76,6 +79,12 @@ def one_case(run, cfg):
                      "C11 (initial guess in measured units for every pass)")
         tol = 1e-6 if not noise else 5e-3
         pfk, pf1 = fk["params_fitted"], f1["params_fitted"]
+        if cfg.get("fix_cp"):
+            got = float(pfk["contact_point"].value)
+            if not math.isclose(got, cp0, rel_tol=4e-16, abs_tol=0):
+                fail(f"a contact point held fixed at {cp0!r} is reported as "
+                     f"{got!r} with k = {k}", "C11_unscale / "
+                     "C04_fixed_contact_point_kept")
         if rtype == "plateau":
             ek = np.asarray(fk["optimal_fit_E_array"])
             e1 = np.asarray(f1["optimal_fit_E_array"]) * k ** (-p)
@@ -185,9 +194,13 @@ def check(run):
             # k=1 objective; start both inside the basin of the truth
             cp0 = cp_true + rng.uniform(-1e-8, 1e-8)
             E0 = E_true * rng.uniform(0.8, 1.25)
+        fix_cp = (i % 5 == 4) and rtype != "plateau"
+        if fix_cp:
+            cp0 = cp_true
         cfg = {"model": mk, "k": k, "segment": segment, "range_type": rtype,
                "range_x": list(rx), "noise": noise, "weight_cp": weight,
-               "cp0": cp0, "seed": i, "true": true, "E0": E0}
+               "cp0": cp0, "seed": i, "true": true, "E0": E0,
+               "fix_cp": fix_cp}
         one_case(run, cfg)
     run.rule = ("metamorphic fits k vs 1 on synthetic power-law curves "
                 "(noise-free: 1e-6; noisy with weighting off: 5e-3) x three "
